@@ -66,13 +66,29 @@ def apply_simple_adc(
     1. Rounds the normalized values to the nearest integer using truncation.
     1. Converts the resulting array to the specified data type (dtype).
     """
+    max_code: int = 2**bit_resolution - 1
+
+    # Work in double precision whatever the precision of the signal (e.g. float32)
+    voltage = np.asarray(signal, dtype=float)
+
     output = (
-        (np.clip(signal, a_min=voltage_min, a_max=voltage_max) - voltage_min)
-        * (2**bit_resolution - 1)
+        (np.clip(voltage, a_min=voltage_min, a_max=voltage_max) - voltage_min)
+        * max_code
         / (voltage_max - voltage_min)
     )
 
-    return np.trunc(output).astype(dtype)
+    # Largest float that does not exceed full scale ('2**bits - 1' is not a float above 53 bits)
+    top = float(max_code)
+    if top > max_code:
+        top = float(np.nextafter(top, 0.0))
+
+    digitized = np.minimum(np.trunc(output), top).astype(dtype)
+
+    # Floating-point rounding may leave the range maximum one code short of full scale:
+    # voltages at or above the maximum saturate exactly
+    full_scale = np.asarray(max_code, dtype=np.uint64).astype(dtype)
+
+    return np.where(voltage >= voltage_max, full_scale, digitized)
 
 
 def simple_adc(
